@@ -107,7 +107,11 @@ def gen_ftype(rnd, prog, prev):
     if r < 0.40:
         return "enum:" + rnd.choice(prog["enums"])["var"]
     if r < 0.55 and prev:
-        return rnd.choice(["ref:", "arr_ref:"]) + rnd.choice(prev)
+        k = rnd.choice(["ref:", "arr_ref:", "ref:", "arr_ref:", "map_ref:", "pos_ref:"])
+        if k == "pos_ref:":
+            # positional items over (usually two different) earlier classes
+            return k + ",".join(rnd.choice(prev) for _ in range(2)) if len(prev) < 2 else k + ",".join(rnd.sample(prev, 2))
+        return k + rnd.choice(prev)
     return rnd.choice(SIMPLE_FT)
 
 
